@@ -2,6 +2,7 @@ package props
 
 import (
 	"bufio"
+	"os"
 	"path"
 	"path/filepath"
 	"reflect"
@@ -595,6 +596,17 @@ func checkTypedDoc(c TypedDocCase, r *Recorder) error {
 		if _, ok := c.Acc["AbsFiles"]; ok && !strSliceEq(abs, c.Acc["AbsFiles"]) {
 			return errf("DSC.AbsFiles() = %q, want %q", abs, c.Acc["AbsFiles"])
 		}
+		// accessors are pure: asking again gives the same answer and the decoded fields are untouched
+		abs2 := []string{}
+		for _, f := range d.AbsFiles() {
+			abs2 = append(abs2, f.Filename)
+		}
+		if !strSliceEq(abs2, abs) {
+			return errf("DSC.AbsFiles() called twice gives %q then %q", abs, abs2)
+		}
+		if err := compareStruct(reflect.ValueOf(*d), c.Exps[0], "DSC (after accessors)"); err != nil {
+			return errf("an accessor changed the decoded fields: %v", err)
+		}
 		ds, err := d.DebianSource()
 		if _, ok := c.Acc["DebianSource"]; !ok {
 			// not modelled in this case
@@ -619,6 +631,16 @@ func checkTypedDoc(c TypedDocCase, r *Recorder) error {
 		abs := []string{}
 		for _, f := range ch.AbsFiles() {
 			abs = append(abs, f.Filename)
+		}
+		abs2 := []string{}
+		for _, f := range ch.AbsFiles() {
+			abs2 = append(abs2, f.Filename)
+		}
+		if !strSliceEq(abs2, abs) {
+			return errf("Changes.AbsFiles() called twice gives %q then %q", abs, abs2)
+		}
+		if err := compareStruct(reflect.ValueOf(*ch), c.Exps[0], "Changes (after accessors)"); err != nil {
+			return errf("an accessor changed the decoded fields: %v", err)
 		}
 		if _, ok := c.Acc["AbsFiles"]; ok && !strSliceEq(abs, c.Acc["AbsFiles"]) {
 			return errf("Changes.AbsFiles() = %q, want %q", abs, c.Acc["AbsFiles"])
@@ -750,4 +772,92 @@ func genTypedDoc(t *rapid.T) TypedDocCase {
 
 func TestC10_Typed(t *testing.T) {
 	specC10.Run(t, genTypedDoc, 12000, 120000)
+}
+
+// ------------------------------------------------------------------ Changes.GetDSC (on disk)
+
+type GetDscCase struct {
+	Changes TypedDocCase `json:"changes"`
+	Dsc     TypedDocCase `json:"dsc"`
+	DscName string       `json:"dscName"` // "" = the .changes lists no .dsc
+	Pos     int          `json:"pos"`     // where in Files the .dsc is listed
+}
+
+var specC10GetDSC = Register(&Spec[GetDscCase]{
+	Prop: "C10", Name: "getdsc",
+	Rule: "a generated .changes and a generated .dsc are written next to each other in a scratch directory; the .changes lists the .dsc at a generated position among its Files (or not at all). Oracle: ParseChangesFile + GetDSC returns the typed .dsc equal to its model (same oracle as C10/typed) with Filename = the absolute path of the .dsc, or an error when no .dsc is listed. Non-trivial: the .dsc is not the first listed file; distinct by case.",
+	Check: func(c GetDscCase, r *Recorder) error {
+		r.Case(jsonKey(c.DscName)+c.Changes.Text+c.Dsc.Text, c.DscName != "" && c.Pos > 0)
+		if c.DscName != "" && c.Pos > 0 {
+			r.Sample(map[string]interface{}{"dscName": c.DscName, "pos": c.Pos})
+		}
+		dir, err := os.MkdirTemp("", "c10-")
+		if err != nil {
+			return errf("HARNESS: %v", err)
+		}
+		defer os.RemoveAll(dir)
+		dir, _ = filepath.EvalSymlinks(dir)
+		text := c.Changes.Text
+		if c.DscName != "" {
+			// add the .dsc to the 5-column Files list at position Pos
+			lines := strings.SplitAfter(text, "\n")
+			idx := -1
+			for i, l := range lines {
+				if l == "Files:\n" {
+					idx = i
+				}
+			}
+			if idx < 0 {
+				return errf("HARNESS: no Files field")
+			}
+			n := len(lines) - idx - 1
+			at := idx + 1 + c.Pos%(n+1)
+			entry := " d41d8cd98f00b204e9800998ecf8427e 0 devel optional " + c.DscName + "\n"
+			lines = append(lines[:at], append([]string{entry}, lines[at:]...)...)
+			text = strings.Join(lines, "")
+			if err := os.WriteFile(filepath.Join(dir, c.DscName), []byte(c.Dsc.Text), 0o644); err != nil {
+				return errf("HARNESS: %v", err)
+			}
+		}
+		chPath := filepath.Join(dir, "x.changes")
+		if err := os.WriteFile(chPath, []byte(text), 0o644); err != nil {
+			return errf("HARNESS: %v", err)
+		}
+		ch, err := control.ParseChangesFile(chPath)
+		if err != nil {
+			return errf("ParseChangesFile(%q): %v", text, err)
+		}
+		if ch.Filename != chPath {
+			return errf("Changes.Filename = %q, want %q", ch.Filename, chPath)
+		}
+		d, err := ch.GetDSC()
+		if c.DscName == "" {
+			if err == nil {
+				return errf("GetDSC() returned %q although the .changes lists no .dsc", d.Filename)
+			}
+			return nil
+		}
+		if err != nil {
+			return errf("GetDSC() failed for a .changes listing %s: %v", c.DscName, err)
+		}
+		if d.Filename != filepath.Join(dir, c.DscName) {
+			return errf("GetDSC().Filename = %q, want %q", d.Filename, filepath.Join(dir, c.DscName))
+		}
+		if err := compareStruct(reflect.ValueOf(*d), c.Dsc.Exps[0], "GetDSC()"); err != nil {
+			return errf("%v (dsc %q)", err, c.Dsc.Text)
+		}
+		return nil
+	},
+})
+
+func TestC10_GetDSC(t *testing.T) {
+	specC10GetDSC.Run(t, func(t *rapid.T) GetDscCase {
+		c := GetDscCase{Changes: genChangesDoc(t), Dsc: genDscDoc(t), Pos: rapid.IntRange(0, 6).Draw(t, "pos")}
+		// generated Files never end in .dsc unless we say so
+		c.Changes.Text = strings.ReplaceAll(c.Changes.Text, ".dsc\n", ".dsx\n")
+		if rapid.IntRange(0, 4).Draw(t, "hasDsc") != 0 {
+			c.DscName = genPkgName(t, "dn") + "_" + rapid.SampledFrom([]string{"1.0-1", "2%3a1.0", "0~rc1"}).Draw(t, "dv") + ".dsc"
+		}
+		return c
+	}, 800, 8000)
 }
